@@ -4,6 +4,8 @@
      visits inc p     the include list inc is crossed in order by p
      Route g s t inc p  :=  is_walk g p /\ NoDup p /\ hd_error p = Some s /\ last p t = t /\ visits inc p
      optimal g s t inc p  :=  Route g s t inc p /\ forall q, Route g s t inc q -> weight g p <= weight g q
+   Not proved: that an explicit answer is also the shortest route crossing the list (it is the only one, which
+   needs the chain structure of an OMS); the oracle checks its weight against the optimum on every run.
    Weights are integers (centimetres; gnpy's 0.01 non-fibre hop = 1). *)
 From Verif Require Import Prelude Model.Route Proofs.Route.
 Open Scope Z_scope.
@@ -49,33 +51,37 @@ Theorem c11_loose_fallback :
 Proof. exact loose_fallback. Qed.
 Print Assumptions c11_loose_fallback.
 
-(* faithful model of compute_constrained_path = the reference, whenever explicit_path declines (guard of F11) *)
-Theorem c11_model_ccp_search :
+(* explicit_path (as repaired by fix bd5aee7e): what an explicit answer guarantees -- it is a route of the request:
+   real links, loop-free, from source to destination, the WHOLE include list crossed in order *)
+Theorem c11_explicit_path_route :
+  forall n inc s t p, explicit_path n inc s t = Some p -> Route (ngraph n) s t inc p.
+Proof. exact explicit_path_route. Qed.
+Print Assumptions c11_explicit_path_route.
+
+(* faithful model of compute_constrained_path, no guard: the answer is an explicit route of the request, or (exactly
+   when explicit_path declines) the reference search characterised by c11_model_route_spec *)
+Theorem c11_model_ccp_spec :
   forall n s t nodes_list strict_list,
   last nodes_list (t + 1) = t ->
-  explicit_path n (removelast nodes_list) s t = None ->
-  model_ccp n s t nodes_list strict_list =
-    Ok (CSearch (model_route (ngraph n) s t (removelast nodes_list)
-                             (existsb (fun b => b) (removelast strict_list)))).
-Proof. exact model_ccp_search. Qed.
-Print Assumptions c11_model_ccp_search.
+  exists r, model_ccp n s t nodes_list strict_list = Ok r /\
+    match r with
+    | CExplicit p => Route (ngraph n) s t (removelast nodes_list) p
+    | CSearch o => explicit_path n (removelast nodes_list) s t = None /\
+                   o = model_route (ngraph n) s t (removelast nodes_list)
+                                   (existsb (fun b => b) (removelast strict_list))
+    end.
+Proof. exact model_ccp_spec. Qed.
+Print Assumptions c11_model_ccp_spec.
 
-(* ... and the unguarded statement is false of the faithful model: F11 (looping explicit list -> not a walk) *)
-Theorem c11_explicit_loop_refuted :
-  exists n s t nodes_list strict_list p,
-    model_ccp n s t nodes_list strict_list = Ok (CExplicit p) /\ walkb (ngraph n) p = false.
-Proof. exact explicit_loop_refuted. Qed.
-Print Assumptions c11_explicit_loop_refuted.
-
-(* F11b: a STRICT include that the explicit path does not cross is ignored instead of blocking *)
-Theorem c11_explicit_skips_include_refuted :
-  exists n s t nodes_list strict_list p,
-    model_ccp n s t nodes_list strict_list = Ok (CExplicit p) /\
-    route_ok (ngraph n) s t [] p = true /\ ispart (removelast nodes_list) p = false /\
-    model_route (ngraph n) s t (removelast nodes_list) (existsb (fun b => b) (removelast strict_list))
-      = RBlock "NO_PATH_WITH_CONSTRAINT".
-Proof. exact explicit_skips_include_refuted. Qed.
-Print Assumptions c11_explicit_skips_include_refuted.
+(* every path it returns is a route: for the include list, or (LOOSE fall-back) without it *)
+Theorem c11_model_ccp_path_is_route :
+  forall n s t nodes_list strict_list r p,
+  last nodes_list (t + 1) = t ->
+  model_ccp n s t nodes_list strict_list = Ok r ->
+  (r = CExplicit p \/ r = CSearch (RPath p)) ->
+  Route (ngraph n) s t (removelast nodes_list) p \/ Route (ngraph n) s t [] p.
+Proof. exact model_ccp_path_is_route. Qed.
+Print Assumptions c11_model_ccp_path_is_route.
 
 (* dual-potential certificate: feasible potentials tight along p  =>  p is a shortest s-t walk (large meshes) *)
 Theorem c11_potential_cert :
@@ -84,6 +90,15 @@ Theorem c11_potential_cert :
   forall q, is_walk g q -> hd_error q = Some s -> last q t = t -> weight g p <= weight g q.
 Proof. exact potential_cert. Qed.
 Print Assumptions c11_potential_cert.
+
+(* the same with an include list: one feasible potential per leg s -> inc_1 -> ... -> t whose distances add up to
+   the weight of p  =>  no walk crossing inc in order is shorter (include lists on large meshes) *)
+Theorem c11_seg_cert :
+  forall g pis s t inc p,
+  seg_cert_ok g pis s t inc p = true ->
+  forall q, is_walk g q -> hd_error q = Some s -> last q t = t -> visits inc q -> weight g p <= weight g q.
+Proof. exact seg_cert. Qed.
+Print Assumptions c11_seg_cert.
 
 (* model of find_reversed_path: when every crossed OMS has a reversed OMS joining the same two sites the other way
    round (rev_wf, evaluated on every observed path), the reverse path visits the same sites in reverse *)
@@ -102,18 +117,6 @@ Theorem c11_clean_route_valid :
   (forall y, In y out_n -> is_roadm n y = true \/ is_line n y = true) /\ incl out_n nodes_list.
 Proof. exact clean_route_valid. Qed.
 Print Assumptions c11_clean_route_valid.
-
-(* proposed repair of F11/F11b (explicit_path validated before it is returned), partial: every explicit answer is a
-   route of the request, every other answer is the reference search; optimality of an explicit answer is not proved *)
-Theorem c11_model_ccp_checked_partial :
-  forall n s t nodes_list strict_list r,
-  model_ccp_checked n s t nodes_list strict_list = Ok r ->
-  match r with
-  | CExplicit p => Route (ngraph n) s t (removelast nodes_list) p
-  | CSearch o => o = model_route (ngraph n) s t (removelast nodes_list) (existsb (fun b => b) (removelast strict_list))
-  end.
-Proof. exact model_ccp_checked_partial. Qed.
-Print Assumptions c11_model_ccp_checked_partial.
 
 (* ---------- non-vacuity ---------- *)
 (* square 1-2-4 / 1-3-4 with a chord: two routes, includes select the longer one, a STRICT impossible list blocks *)
@@ -143,7 +146,13 @@ Example c11_ex_clean :
   clean_route f11_net 0 4 [0; 3; -1; 8; 2; 4] [true; true; false; false; false; true] = Ok ([3; 8], [true; false]) /\
   clean_route f11_net 0 4 [3; -1] [false; true] = Err "ServiceError:strict constraint can not be applied".
 Proof. vm_compute. split; reflexivity. Qed.
-Example c11_ex_checked :
-  model_ccp_checked f11_net 0 4 [6; 7; 8; 4] [true; true; true; true] = Ok (CSearch (RBlock "NO_PATH_WITH_CONSTRAINT")) /\
-  model_ccp_checked f11_net 0 4 [8; 4] [true; true] = Ok (CExplicit [0; 1; 8; 5; 4]).
-Proof. vm_compute. split; reflexivity. Qed.
+Example c11_ex_ccp_explicit :
+  (* F11 regression: the looping list A->B, B->A, A->C is not returned as a path, the STRICT request is blocked *)
+  model_ccp f11_net 0 4 [6; 7; 8; 4] [true; true; true; true] = Ok (CSearch (RBlock "NO_PATH_WITH_CONSTRAINT")) /\
+  (* F11b regression: STRICT roadm B off the only A->C path blocks, LOOSE falls back *)
+  model_ccp f11_net 0 4 [3; 8; 4] [true; true; true] = Ok (CSearch (RBlock "NO_PATH_WITH_CONSTRAINT")) /\
+  model_ccp f11_net 0 4 [3; 8; 4] [false; false; true] = Ok (CSearch (RPath [0; 1; 8; 5; 4])) /\
+  model_ccp f11_net 0 4 [8; 4] [true; true] = Ok (CExplicit [0; 1; 8; 5; 4]).
+Proof. vm_compute. repeat split. Qed.
+Example c11_ex_seg_cert : seg_cert_ok ex_g [[0; 0; 2; 1; 2]; [0; 9; 0; 9; 5]] 1 4 [2] [1; 3; 2; 4] = true.
+Proof. vm_compute. reflexivity. Qed.
